@@ -55,8 +55,9 @@ HalfSpace(f, pts) == ("model" :> "half space model") @@ ("min depth" :> 0) @@ ("
 Features(f) ==
   << Area("continental plate", "cont", RectF(f, 0, 0, 500, 500), 0,
           << <<200 * Km>>, <<120 * Km, <<XYf(f, 250, 250), XYf(f, 500, 500)>>>> >>
-          \o [i \in 1..18 |-> <<(100 + ((37 * i) % 90)) * Km, <<XYf(f, 20 + ((113 * i) % 460), 20 + ((197 * i) % 470))>>>>],   \* max depth given at points: 18 scattered nodes, values off any plane (the triangulation matters)
-          <<TUniform(150, "replace")>>, <<CUniform(<<0>>, "replace")>>, <<>>, <<>>),
+          \o [i \in 1..45 |-> <<(100 + ((37 * i) % 90)) * Km, <<XYf(f, 20 + ((113 * i) % 460), 20 + ((197 * i) % 470))>>>>],   \* max depth given at points: 45 scattered nodes, values off any plane (the triangulation matters)
+          \* linear between the top and the LOCAL bottom of the plate: every interior probe feels the interpolated depth
+          <<("model" :> "linear") @@ ("max depth" :> 400 * Km) @@ ("top temperature" :> 300) @@ ("bottom temperature" :> 1500)>>, <<CUniform(<<0>>, "replace")>>, <<>>, <<>>),
      Area("oceanic plate", "ocean", RectF(f, 500, 0, 1000, 500), 0, 150 * Km,
           <<HalfSpace(f, << <<400, -200>>, <<700, 900>> >>)>>, <<CUniformF(<<1, 2>>, <<Dec(25, -2), Dec(75, -2)>>, "replace")>>, <<>>, <<>>),
      Area("mantle layer", "mantle", RectF(f, 0, 0, 1000, 500), 100 * Km, 400 * Km,
